@@ -85,6 +85,9 @@ def run(ctx, res):
                 detail = "; ".join(problems) or why or (f"frontier ends at {hi}, announced {wc.n}" if hi is not None else "")
                 res.ob(ok, "tiling", B.wr, f"{B.name}: the regions written tile [0, n) with n = {wc.n}"[:300], detail=detail[:600], pc=s2.pc, entry=B.cs)
                 n_tiled += 1
+                # "exactly n bytes, where n is the value it returns": the value returned is the extent written
+                res.ob(isinstance(r, IntV) and solver.entails(s2.pc, flit(eq(r.l, wc.n))), "tiling", B.wr,
+                       f"{B.name}: the value returned is the extent written ([0, n) with n = {wc.n})"[:300], detail=f"returned {r!r}"[:200], pc=s2.pc, entry=B.cs)
                 bad = buffer_reads(s2, len(wc.size_state.pc), writes, r)
                 res.ob(not bad, "rmw-before-def", B.wr, f"{B.name}: no byte of the output buffer is read before this call wrote it",
                        detail=str(sorted(map(str, bad)))[:300], pc=s2.pc, entry=B.cs)
